@@ -299,8 +299,31 @@ fn mutate_csv(rng: &mut Rng, text: &str) -> (String, String) {
     }
     let r = 1 + rng.below(rows.len() - 1);
     let c = rng.below(rows[r].len().max(1));
-    let name = match rng.below(8) {
-        0 => {
+    // half of the time aim at a cell that holds a ';'-separated list (complex selectors), when there is one
+    let listcells: Vec<(usize, usize)> = rows.iter().enumerate().skip(1).flat_map(|(i, row)| row.iter().enumerate().filter(|(_, c)| c.contains(';')).map(move |(j, _)| (i, j))).collect();
+    let (r, c) = if !listcells.is_empty() && rng.chance(1, 2) { *rng.pick(&listcells) } else { (r, c) };
+    let name = match rng.below(11) {
+        8 if rows[r][c].contains(';') => {
+            let mut parts: Vec<String> = rows[r][c].split(';').map(|x| x.to_string()).collect();
+            let k = rng.below(parts.len());
+            parts.remove(k);
+            rows[r][c] = parts.join(";");
+            "list-element-dropped"
+        }
+        9 if rows[r][c].contains(';') => {
+            let mut parts: Vec<String> = rows[r][c].split(';').map(|x| x.to_string()).collect();
+            let k = rng.below(parts.len());
+            parts[k] = String::new();
+            rows[r][c] = parts.join(";");
+            "list-element-blanked"
+        }
+        10 if rows[r][c].contains(';') => {
+            let parts: Vec<String> = rows[r][c].split(';').map(|x| x.to_string()).collect();
+            let extra = rng.pick(&parts).clone();
+            rows[r][c] = format!("{};{}", rows[r][c], extra);
+            "list-element-added"
+        }
+        0 | 8 | 9 | 10 => {
             rows[r][c] = String::new();
             "empty-cell"
         }
